@@ -3,7 +3,7 @@
 revert, and record which checks report a violation.  Usage: seed_matrix.py [seed ids...]"""
 import json, os, subprocess, sys, glob
 V = os.path.dirname(os.path.dirname(os.path.abspath(__file__)))
-REPO = os.environ.get("OVM_REPO", REPO)
+REPO = os.environ.get("OVM_REPO", "/repo")
 man = json.load(open(V + "/MANIFEST.json"))
 claimed = [c["property_id"] for c in man["checks"]]
 seeds = sys.argv[1:] or sorted(os.path.basename(p) for p in glob.glob(V + "/seeded/C*"))
